@@ -53,6 +53,9 @@ def _gen(a):
     e = core.derive(run_seed, "env") % 8
     case.setdefault("env", {"logging": "debug" if e in (0, 1) else ("warning" if e == 2 else "off")})
     case["env"]["optimize"] = int(sys.flags.optimize)  # interpreter flag the run was made under (-O pass, see main)
+    en = core.derive(run_seed, "envnp") % 10
+    if en < 3:
+        case["env"].setdefault("numpy", ("terse", "raise", "both")[en])  # process-wide numpy print options / error state changed by the application
     if chk.env_warnings_as_errors and core.derive(run_seed, "envw") % 6 == 0:
         case["env"].setdefault("warnings", "error")  # the application runs with -W error (warnings raise)
     return case
@@ -94,6 +97,7 @@ def _gen_exec(a):
     res = _execute(chk, case)
     res.fault("env_logging_" + case["env"]["logging"], 0 if case["env"]["logging"] == "off" else 1)
     res.fault("env_warnings_as_errors", 1 if case["env"].get("warnings") == "error" else 0)
+    res.fault("env_numpy_" + str(case["env"].get("numpy")), 1 if case["env"].get("numpy") else 0)
     res["env"] = case["env"]
     res["faults"] = {k: v for k, v in res["faults"].items() if v}
     if res["viol"]:
@@ -179,6 +183,8 @@ def _work(spec):
                     lg = (case.get("env") or {}).get("logging", "off")
                     if lg != "off":
                         res.fault("env_logging_" + lg)
+                    if (case.get("env") or {}).get("numpy"):
+                        res.fault("env_numpy_" + case["env"]["numpy"])
                     res["env"] = case.get("env")
                     if res["viol"]:
                         res["case"] = chk.resolve(case, res)
